@@ -188,6 +188,41 @@ theorem sync0 {dir : String} {s : St} {m : BSpec} (h : HInv0 dir s m) :
   have hw := hfr1 (mergeDirName dir) (by rw [hd]; exact Restart.mergeDirName_ne dir)
   exact ⟨hres, db, g, hs', hd, hi', fun k => by rw [habs' k, habs k], hms.step hi.files hgs hw, hfr⟩
 
+/-! ## `Backup` into another directory -/
+
+theorem backup_eq {s : St} {db : DB} (hs : s.db = some db) (dest : String) :
+    ∃ X, backup s dest = ({ s with world := s.world.set dest X }, .ok) := by
+  unfold backup withDB
+  rw [hs]
+  exact ⟨_, rfl⟩
+
+theorem Inv_frame {s s' : St} {db : DB} {g : GDir} (h : Inv s db g) (hw : s'.world.get db.dir = s.world.get db.dir) :
+    Inv s' db g :=
+  ⟨by rw [hw]; exact h.dir, h.asc, h.active, h.recs, h.index, h.sorted, h.counters, h.nobatch⟩
+
+theorem absGet_frame {s s' : St} (db : DB) (hw : s'.world.get db.dir = s.world.get db.dir) (k : ByteArray) :
+    absGet s' db k = absGet s db k := by
+  unfold absGet valueAt dirOf
+  rw [hw]
+
+/-- `Backup` copies the data files into `dest`; with `dest` neither the data directory nor its merge
+    directory nothing the invariant speaks about is touched -/
+theorem backup0 {dir : String} {s : St} {m : BSpec} (h : HInv0 dir s m) (dest : String)
+    (h1 : dest ≠ dir) (h2 : dest ≠ mergeDirName dir) :
+    (backup s dest).2 = .ok ∧ HInv0 dir (backup s dest).1 m := by
+  obtain ⟨db, g, hs, hd, hi, habs, hms, hfr⟩ := h
+  obtain ⟨X, e⟩ := backup_eq hs dest
+  rw [e]
+  have hw1 : (s.world.set dest X).get db.dir = s.world.get db.dir :=
+    MergeP.get_set_ne _ _ _ _ (by rw [hd]; exact fun e => h1 e.symm)
+  have hw2 : (s.world.set dest X).get (mergeDirName dir) = s.world.get (mergeDirName dir) :=
+    MergeP.get_set_ne _ _ _ _ (fun e => h2 e.symm)
+  refine ⟨rfl, db, g, hs, hd, Inv_frame hi hw1, fun k => by rw [absGet_frame db hw1, habs k], ?_, hfr⟩
+  rcases hms with hnm | ⟨n, gm, vis, hmo⟩
+  · exact Or.inl (hnm.congr hw2)
+  · exact Or.inr ⟨n, gm, vis, ⟨by rw [hw2]; exact hmo.mdir, hmo.ids, hmo.count, hmo.small, hmo.perm, hmo.live,
+      hmo.loSealed, hmo.hiNe⟩⟩
+
 /-! ## `Merge` -/
 
 /-- **`Merge` from any state of the invariant**, whatever the merge directory held before (`Merge`
@@ -465,6 +500,13 @@ theorem mergeQ {dir : String} {s : St} {m : BSpec} {dead : Bool} (h : HInvQ dir 
   obtain ⟨e, h3⟩ := HInvQ.lift (f := fun s => merge s order) (fun ob s => merge_setB ob s order) h h2
   rw [e]
   exact ⟨h1, h3⟩
+
+theorem backupQ {dir : String} {s : St} {m : BSpec} {dead : Bool} (h : HInvQ dir s m dead) (dest : String)
+    (h1 : dest ≠ dir) (h2 : dest ≠ mergeDirName dir) :
+    (backup s dest).2 = .ok ∧ HInvQ dir (backup s dest).1 m dead := by
+  obtain ⟨r1, r2⟩ := backup0 h.1 dest h1 h2
+  obtain ⟨e, h3⟩ := HInvQ.lift (f := fun s => backup s dest) (fun ob s => backup_setB ob s dest) h r2
+  exact ⟨e.trans r1, h3⟩
 
 theorem restartQ {dir : String} {s : St} {m : BSpec} {dead : Bool} (h : HInvQ dir s m dead)
     (cfg' : Cfg) (hcfg : cfg'.Valid)
